@@ -148,6 +148,19 @@ CHECKS["C18"] = dict(
     design="4 (C18), 5 (D11)",
     note="crypto/tls, crypto/x509 and pion/dtls are trusted to enforce the configuration they are given; negotiated versions are observed only at raw peers.")
 
+CHECKS["C07"] = dict(
+    engine="agg",
+    technique="Lean 4 proof (decision logic of isCorrelationRequired; induction over all arrival sequences for readiness; merge lemma) + differential correspondence over all arrival orders under a virtual clock",
+    text="Proved on the aggregation model: needs_correlation_iff (the decision logic stated outright), ready_at_once, withheld_at_first, "
+         "update_ready, withheld_until_both (for ANY sequence and multiplicity of source- and destination-node records the flow is ready iff a "
+         "record from the other node than the first has arrived), merged_complete (every correlate field non-empty on either side is non-empty in "
+         "the merged record and equals one of the two) and correlating_update_fills; that only ready flows reach the callback and the retry / drop "
+         "bookkeeping are the scan theorems of C06. All S/D arrival orders up to length 5 x 8 flow kinds x field-emptiness patterns x scan "
+         "placements are run on the real AggregationProcess under the virtual clock; Ipfix.C07.checkShown is evaluated on every exported and "
+         "dumped record.",
+    design="4 (C07)",
+    note="flows whose records disagree on whether correlation is needed are outside the statement; fixed Antrea configuration of correlate fields.")
+
 NOT_YET = {}
 
 
